@@ -19,11 +19,15 @@ import (
 // wrapped error ...): which one a task gets depends on its name only
 type exitFailure struct{ name string }
 
-func (e exitFailure) Error() string { return "verif: generated failure of " + e.name + " (exit status 3)" }
+func (e exitFailure) Error() string {
+	return "verif: generated failure of " + e.name + " (exit status 3)"
+}
 
 type timeoutFailure struct{ name string }
 
-func (e *timeoutFailure) Error() string { return "verif: generated failure of " + e.name + " (deadline exceeded)" }
+func (e *timeoutFailure) Error() string {
+	return "verif: generated failure of " + e.name + " (deadline exceeded)"
+}
 
 func genFailure(name string) error {
 	h := 0
